@@ -8,6 +8,10 @@ and a template expression (texpr) is a nested tuple
     ("p", i)              the i-th (preprocessed) argument of the task
     ("l", (texpr, ...))   a list
     ("call", t, (texpr, ...))   a lazy call of task t
+    ("cond", g, a, b)     redun.scheduler.cond(g, a, b): a / b is evaluated (under the same parent job) once g has a value
+    ("seq", (texpr, ...)) redun.functools.seq([...]): evaluated one after the other
+("cond" / "seq" are not part of the Coq machine of Model/Timing.v; programs using them go through the oracle and the
+`_pending_expr` machine of Model/PendingExpr.v only.)
 The same language is interpreted by coq/Model/Timing.v (`tbody`).  Every program gets its own
 redun tasks (one per definition, created once and reused for all runs of the program so that
 task hashes are the same in every run).
@@ -43,6 +47,12 @@ def build(te, args, tasks):
         return [build(x, args, tasks) for x in te[1]]
     if k == "call":
         return tasks[te[1]](*[build(x, args, tasks) for x in te[2]])
+    if k == "cond":
+        from redun.scheduler import cond
+        return cond(build(te[1], args, tasks), build(te[2], args, tasks), build(te[3], args, tasks))
+    if k == "seq":
+        from redun.functools import seq
+        return seq([build(x, args, tasks) for x in te[1]])
     raise AssertionError(te)
 
 
@@ -78,10 +88,29 @@ def root_expr(prog, root_args=()):
 
 
 # ------------------------------------------------------------------------------- static facts
+def subexprs(te):
+    k = te[0]
+    if k in ("l", "seq"):
+        return te[1]
+    if k == "call":
+        return te[2]
+    if k == "cond":
+        return te[1:]
+    return ()
+
+
+def has_lazy(prog):
+    def f(te):
+        return te[0] in ("cond", "seq") or any(f(x) for x in subexprs(te))
+    return any(f(td["body"]) for td in prog)
+
+
 def texpr_has_handle(te):
     k = te[0]
     if k == "h":
         return True
+    if k in ("cond", "seq"):
+        return any(texpr_has_handle(x) for x in subexprs(te))
     if k == "l":
         return any(texpr_has_handle(x) for x in te[1])
     if k == "call":
@@ -112,6 +141,7 @@ def gen_program(rng: random.Random, handles: str, resources=("r0",), ntasks=None
               "linear"  every Handle state is passed to at most one call per task body, and a task
                         body uses each of its parameters at most once
               "shared"  Handle states may be passed to several sibling calls
+              "lazy"    see gen_lazy: no Handles; one parent demands the same call expression eagerly and again later
               "cross"   see gen_cross: the same un-keyed Handle state passed on by children of DIFFERENT parents
 
     The same call expression is written twice in one body only if the callee returns an int: a
@@ -121,6 +151,8 @@ def gen_program(rng: random.Random, handles: str, resources=("r0",), ntasks=None
     """
     if handles == "cross":
         return gen_cross(rng, resources)
+    if handles == "lazy":
+        return gen_lazy(rng, resources)
     n = ntasks or rng.choice([3, 4, 4, 5, 5, 6])
     arity = [0] + [rng.randint(0, 2) for _ in range(n - 1)]
     prog: list = [None] * n
@@ -231,4 +263,51 @@ def gen_cross(rng: random.Random, resources=("r0",)):
     prog[t_open] = {"n": 0, "body": ("h", 0), "limits": lim()}
     for i, g in enumerate(gates):
         prog[g] = {"n": 0, "body": ("c", 100 + i), "limits": lim()}
+    return prog
+
+
+def gen_lazy(rng: random.Random, resources=("r0",)):
+    """Handle-free programs in which ONE parent job demands the same call expression more than once, the later
+    demand gated by an independent job: `[x, cond(check(), x, 0)]`, `[cond(check(), x, 0), x]`, `seq([x, x])`,
+    `[x, cond(check(), [x, y], x)]`, `[x, seq([check(), x])]`.  Whether the later demand finds x still running or
+    already concluded is decided by the completion order of x and check (and by limit waits).  x and check return
+    ints (no shared container objects)."""
+    k = rng.choice([1, 2, 2])
+    parents = list(range(1, k + 1))
+    xs = [k + 1, k + 2]            # x tasks: one parameter, return it / a constant
+    checks = [k + 3, k + 4]        # gates: return 1 / 0
+    t_y = k + 5
+
+    def lim():
+        return {rng.choice(list(resources)): 1} if resources and rng.random() < 0.5 else None
+
+    def shape(i):
+        x = ("call", rng.choice(xs), (("c", rng.randint(0, 2)),))
+        chk = ("call", rng.choice(checks), ())
+        y = ("call", t_y, ())
+        kind = rng.randrange(6)
+        if kind == 0:
+            return ("l", (x, ("cond", chk, x, ("c", 0))))
+        if kind == 1:
+            return ("l", (("cond", chk, x, ("c", 0)), x))
+        if kind == 2:
+            return ("seq", (x, x))
+        if kind == 3:
+            return ("l", (x, ("cond", chk, ("l", (x, y)), x)))
+        if kind == 4:
+            return ("l", (x, ("seq", (chk, x))))
+        return ("l", (y, x, ("cond", chk, ("cond", ("call", checks[0], ()), x, y), ("c", i))))
+
+    prog: list = [None] * (t_y + 1)
+    root_items = [("call", pt, ()) for pt in parents]
+    if rng.random() < 0.4:
+        root_items.append(shape(0))
+    prog[0] = {"n": 0, "body": ("l", tuple(root_items)), "limits": None}
+    for i, pt in enumerate(parents):
+        prog[pt] = {"n": 0, "body": shape(i + 1), "limits": lim()}
+    prog[xs[0]] = {"n": 1, "body": ("p", 0), "limits": lim()}
+    prog[xs[1]] = {"n": 1, "body": ("c", 10), "limits": lim()}
+    prog[checks[0]] = {"n": 0, "body": ("c", 1), "limits": lim()}
+    prog[checks[1]] = {"n": 0, "body": ("c", rng.choice([0, 1])), "limits": lim()}
+    prog[t_y] = {"n": 0, "body": ("c", 5), "limits": lim()}
     return prog
